@@ -29,6 +29,7 @@ type Adversary struct {
 	KS   *keystore.Keystore
 	Own  *idp.Identity
 	n    int
+	victimPub []byte
 }
 
 func (k *K) NewAdversary() *Adversary {
@@ -57,6 +58,7 @@ func (k *K) NewAdversary() *Adversary {
 //	                the entry signature verifies
 func (a *Adversary) ForgedIdentity(kind string, victim *idp.Identity) (*idp.Identity, crypto.PrivKey) {
 	ctx := context.Background()
+	a.victimPub = victim.PublicKey
 	switch kind {
 	case "own":
 		return a.Own, nil
@@ -67,6 +69,27 @@ func (a *Adversary) ForgedIdentity(kind string, victim *idp.Identity) (*idp.Iden
 		if err != nil {
 			panic(abortPanic{"adversary key: " + err.Error()})
 		}
+	}
+	if strings.HasPrefix(kind, "mix:") && len(kind) == 8 {
+		// mix:PISK - which of the identity's public key, id signature, public-key signature and
+		// the entry key are the victim's (V) or the adversary's (A); the id is always the
+		// victim's and the signing key always the adversary's
+		pick := func(c byte, v, a []byte) []byte {
+			if c == 'V' {
+				return v
+			}
+			return a
+		}
+		advPub := uncompressedPub(priv)
+		return &idp.Identity{
+			ID:        victim.ID,
+			PublicKey: pick(kind[4], victim.PublicKey, advPub),
+			Signatures: &idp.IdentitySignature{
+				ID:        pick(kind[5], victim.Signatures.ID, a.Own.Signatures.ID),
+				PublicKey: pick(kind[6], victim.Signatures.PublicKey, a.Own.Signatures.PublicKey),
+			},
+			Type: victim.Type, Provider: a.Own.Provider,
+		}, priv
 	}
 	switch kind {
 	case "copied-id":
@@ -106,6 +129,22 @@ func (a *Adversary) Craft(kind string, ident *idp.Identity, priv crypto.PrivKey,
 		return nil, err
 	}
 	out := e.(*entry.Entry)
+	if strings.HasPrefix(kind, "mix:") && len(kind) == 8 {
+		want := out.Key
+		if kind[7] == 'A' {
+			want = uncompressedPub(priv)
+		} else {
+			want = a.victimPub
+		}
+		if string(want) != string(out.Key) {
+			out.Key = want
+			h, err := entry.ToMultihashWithIO(ctx, out, a.API, nil, io)
+			if err != nil {
+				return nil, err
+			}
+			out.Hash = h
+		}
+	}
 	if kind == "block-and-key" {
 		// the signature covers neither `key` nor the identity block: swap the key for the one
 		// that really signed and recompute the address
